@@ -2,33 +2,36 @@
   C12 — validation is sound.
 
   `Validate.machineWith c` is the model of `Machine::validate` with the three range tests
-  (machine fractions, transition probabilities, per-vector sums) as a parameter `c`;
-  `Validate.machine` (= `Validate.machineWith Validate.checks`, `machine_eq_with`) mirrors the code as it is today
-  (`Validate.checks` is defined from `fracBad/probBad/sumBad`, the MIRROR POINT in Validate.lean).
+  (machine fractions, transition probabilities, per-vector sums) as a parameter `c`.
+  `checksCur`  = the comparisons `x < 0.0 || x > 1.0`, `p <= 0.0 || p > 1.0`, `sum <= 0.0 || sum > 1.0`;
+  `checksFixed` = the NaN-rejecting `!(x >= 0.0 && x <= 1.0)`, `!(p > 0.0 && p <= 1.0)`, …
+  `Validate.machine` is the code as it is today: `machine m = machineWith Validate.checks m`
+  (`machine_eq_with`), where `Validate.checks` is built from `fracBad/probBad/sumBad`, the
+  MIRROR POINT in Validate.lean.
 
-  * `C12_sound_of_checks`   : for ANY sound triple of range tests, acceptance implies `WF`.
-  * `C12_sound_fixed`       : the NaN-rejecting style `!(x >= lo && x <= hi)` is sound — FULL theorem.
-  * `C12_sound_if`          : the full theorem for today's model, from the single hypothesis
-                              `ChecksSound Validate.checks`.
-  * `C12_checks_unsound_today`, `C12_unsound_today_fraction`, `C12_unsound_today_probability` :
-                              that hypothesis is false today, with two concrete accepted machines
-                              that are not well-formed (NaN fraction, NaN probability).
-  * `C12_sound_today_partial` : what does hold today: acceptance implies `WF` for machines whose
-                              fractions and probabilities are not NaN.
-  * `C12_today_eq_fixed_off_nan` : off NaN inputs today's judgement and the fixed one coincide.
-  * `C12_fixed_rejects_nan` : the fixed tests leave no NaN in any fraction or probability.
-  * `C12_frameworkNew_factors`, `C12_fracOK_sound`, `C12_init_no_fault` : `Framework::new`.
-
-  AFTER THE FIX in /repo (comparisons rewritten to reject NaN): set
-  `fracBad := fracBadFixed`, `probBad := probBadFixed`, `sumBad := sumBadFixed` in Validate.lean;
-  then `ChecksSound Validate.checks` is `checksFixed_sound` (definitionally), so
-      theorem C12_sound (m) : Validate.machine m = true → WF m := C12_sound_if checksFixed_sound m
-  type-checks, and the three `…_today…` theorems below stop type-checking and are deleted.
+  PART 1 (independent of which style the code uses; never needs editing)
+  * `C12_sound_of_checks`      : for ANY sound triple of range tests, acceptance implies `WF`.
+  * `C12_sound_fixed`          : FULL soundness of the NaN-rejecting style.
+  * `C12_unsound_cur_fraction`, `C12_unsound_cur_probability`, `C12_sound_cur_false` :
+                                 the `x < lo || x > hi` style accepts two concrete machines that are
+                                 not well-formed (NaN fraction, NaN probability): it is NOT sound.
+  * `C12_sound_cur_partial`    : what the `x < lo || x > hi` style does give: `WF` for machines whose
+                                 fractions and probabilities are not NaN.
+  * `C12_cur_eq_fixed_off_nan` : off NaN the two styles give the same judgement (the repair changes
+                                 nothing else).
+  * `C12_fixed_rejects_nan`, `C12_monitor_iff`.
+  PART 2 (construction paths) `C12_from_str_factors`, `C12_frameworkNew_factors`, `C12_fracOK_sound`,
+                                 `C12_init_no_fault`.
+  PART 3 (TODAY: the only theorems that depend on which style /repo uses) — see the end of the file
+  for the four-line replacement once /repo rejects NaN.
 -/
 import MbVerif.Proofs.ValidateInit
+import MbVerif.Proofs.CodecStr
 
 namespace Mb.C12
 open Mb Mb.Validate Mb.Fp
+
+/-! ## Part 1 -/
 
 /-- acceptance by validation implies well-formedness, for any sound triple of range tests -/
 theorem C12_sound_of_checks {c : Checks} (hc : ChecksSound c) (m : Machine) :
@@ -39,36 +42,33 @@ theorem C12_sound_of_checks {c : Checks} (hc : ChecksSound c) (m : Machine) :
 theorem C12_sound_fixed (m : Machine) : machineWith checksFixed m = true → WF m :=
   C12_sound_of_checks checksFixed_sound m
 
-/-- FULL soundness of today's model, from the one hypothesis about the comparison style -/
-theorem C12_sound_if (hc : ChecksSound Validate.checks) (m : Machine) :
-    Validate.machine m = true → WF m := by
-  rw [machine_eq_with]; exact C12_sound_of_checks hc m
-
-/-- … which does not hold today: NaN passes `x < 0.0 || x > 1.0` -/
-theorem C12_checks_unsound_today : ¬ ChecksSound Validate.checks := checksCur_unsound
-
-/-- a machine with `max_padding_frac = NaN` is accepted and is not well-formed -/
-theorem C12_unsound_today_fraction :
-    Validate.machine witnessNanFraction = true ∧ ¬ WF witnessNanFraction := by
+/-- `x < 0.0 || x > 1.0`: a machine with `max_padding_frac = NaN` is accepted and is not well-formed -/
+theorem C12_unsound_cur_fraction :
+    machineWith checksCur witnessNanFraction = true ∧ ¬ WF witnessNanFraction := by
   refine ⟨by decide +kernel, ?_⟩
   rw [← wfB_iff]
   decide +kernel
 
-/-- a machine with a NaN transition probability is accepted and is not well-formed -/
-theorem C12_unsound_today_probability :
-    Validate.machine witnessNanProbability = true ∧ ¬ WF witnessNanProbability := by
+/-- `p <= 0.0 || p > 1.0`: a machine with a NaN transition probability is accepted and is not
+    well-formed -/
+theorem C12_unsound_cur_probability :
+    machineWith checksCur witnessNanProbability = true ∧ ¬ WF witnessNanProbability := by
   refine ⟨by decide +kernel, ?_⟩
   rw [← wfB_iff]
   decide +kernel
 
-/-- hence the full statement is false of the code as it is today -/
-theorem C12_sound_today_false : ¬ ∀ m, Validate.machine m = true → WF m :=
-  fun h => C12_unsound_today_fraction.2 (h _ C12_unsound_today_fraction.1)
+/-- hence soundness is false for the `x < lo || x > hi` style -/
+theorem C12_sound_cur_false : ¬ ∀ m, machineWith checksCur m = true → WF m :=
+  fun h => C12_unsound_cur_fraction.2 (h _ C12_unsound_cur_fraction.1)
 
-/-- what holds today: soundness for machines without NaN fractions / probabilities -/
-theorem C12_sound_today_partial (m : Machine) (hnn : InputsSat (· ≠ .nan) m) :
-    Validate.machine m = true → WF m := by
-  rw [machine_eq_with]; exact machineWith_sound checksCur_sound_on_non_nan hnn
+/-- the isolated reason: the comparisons themselves let NaN through -/
+theorem C12_checks_cur_unsound : ¬ ChecksSound checksCur := checksCur_unsound
+
+/-- what the `x < lo || x > hi` style does give: soundness for machines without NaN fractions and
+    probabilities -/
+theorem C12_sound_cur_partial (m : Machine) (hnn : InputsSat (· ≠ .nan) m) :
+    machineWith checksCur m = true → WF m :=
+  machineWith_sound checksCur_sound_on_non_nan hnn
 
 /-- the fixed tests reject NaN in every position -/
 theorem C12_fixed_rejects_nan (m : Machine) (h : machineWith checksFixed m = true) :
@@ -81,27 +81,33 @@ theorem C12_fixed_rejects_nan (m : Machine) (h : machineWith checksFixed m = tru
     have := ((hw.states s hs).vectors v hv ts e).probs t ht
     rw [en] at this; exact this
 
-/-- replacing today's comparisons by the NaN-rejecting ones changes the judgement on no machine
-    whose fractions and probabilities are not NaN: the repair is behaviour-preserving off NaN -/
-theorem C12_today_eq_fixed_off_nan (m : Machine) (hnn : InputsSat (· ≠ .nan) m) :
-    Validate.machine m = machineWith checksFixed m := by
-  rw [machine_eq_with]; exact machine_cur_eq_fixed hnn
+/-- replacing the comparisons by the NaN-rejecting ones changes the judgement on no machine whose
+    fractions and probabilities are not NaN: the repair is behaviour-preserving off NaN -/
+theorem C12_cur_eq_fixed_off_nan (m : Machine) (hnn : InputsSat (· ≠ .nan) m) :
+    machineWith checksCur m = machineWith checksFixed m :=
+  machine_cur_eq_fixed hnn
 
 /-- non-vacuity: a machine with two states, a two-target vector and a sampled limit is accepted by
     both styles and is well-formed -/
-example : Validate.machine exampleMachine = true ∧ machineWith checksFixed exampleMachine = true ∧
+example : machineWith checksCur exampleMachine = true ∧ machineWith checksFixed exampleMachine = true ∧
     wfB exampleMachine = true := by
   refine ⟨by decide +kernel, by decide +kernel, by decide +kernel⟩
 
 /-- the monitor run on the implementation's accepted machines decides `WF` -/
 theorem C12_monitor_iff (m : Machine) : wfB m = true ↔ WF m := wfB_iff m
 
-/-! ### every construction path goes through the same judgement
+/-! ## Part 2 — every construction path goes through the same judgement
 
 `Machine::new` is `validate` on the assembled struct (machine.rs:40-57), so its model *is*
-`Validate.machine`.  `Framework::new` is modelled by `Validate.frameworkNew`.
-TODO(hook, codec agent): `Machine::from_str` = decode ∘ `Validate.machine`; once
-`Codec.fromStr` exists the statement is `Codec.fromStr s = .ok m → Validate.machine m = true`. -/
+`Validate.machine`.  `Machine::from_str` is modelled by `MStr.fromStr` (C11), `Framework::new`
+by `Validate.frameworkNew`. -/
+
+/-- whatever `Machine::from_str` returns passed `Machine::validate`, for every string and every
+    behaviour of the zlib decoder -/
+theorem C12_from_str_factors (Z : MStr.Zlib) (s : Codec.Bytes) (m : Machine)
+    (h : MStr.fromStr Z s = .ok m) : Validate.machine m = true := by
+  obtain ⟨_, _, _, _, _, _, _, _, hv⟩ := MStr.fromStr_ok h
+  exact hv
 
 /-- `Framework::new` accepts iff both framework fractions are in [0,1] and every machine passes
     `Machine::validate` -/
@@ -154,5 +160,39 @@ theorem C12_init_no_fault (ms : List Machine) (fp fb : F64) (t0 : Int) (rng : σ
         exact modRt_inv (sampleLimit_inv ρ a hs) hmi _
 
 end init
+
+/-! ## Part 3 — TODAY
+
+The only theorems that depend on which comparison style /repo uses.  Today
+`Validate.checks = checksCur`, so the code's judgement is unsound (with replayable witnesses) and
+only the partial theorem holds.
+
+AFTER /repo rejects NaN: set `fracBad := fracBadFixed`, `probBad := probBadFixed`,
+`sumBad := sumBadFixed` in Validate.lean and replace this whole part by
+
+    theorem C12_today_is_fixed : Validate.checks = checksFixed := rfl
+    /-- FULL: any machine accepted by `Machine::validate` is well-formed -/
+    theorem C12_sound (m : Machine) : Validate.machine m = true → WF m := by
+      rw [machine_eq_with, C12_today_is_fixed]; exact C12_sound_fixed m
+-/
+
+/-- the model mirrors the `x < lo || x > hi` comparisons of today's code -/
+theorem C12_today_is_cur : Validate.checks = checksCur := rfl
+
+/-- today's `Machine::validate` accepts the two witnesses, which are not well-formed -/
+theorem C12_unsound_today :
+    (Validate.machine witnessNanFraction = true ∧ ¬ WF witnessNanFraction) ∧
+    (Validate.machine witnessNanProbability = true ∧ ¬ WF witnessNanProbability) := by
+  simp only [machine_eq_with, C12_today_is_cur]
+  exact ⟨C12_unsound_cur_fraction, C12_unsound_cur_probability⟩
+
+/-- hence the full statement is false of the code as it is today -/
+theorem C12_sound_today_false : ¬ ∀ m, Validate.machine m = true → WF m :=
+  fun h => C12_unsound_today.1.2 (h _ C12_unsound_today.1.1)
+
+/-- what holds today: soundness for machines without NaN fractions / probabilities -/
+theorem C12_sound_today_partial (m : Machine) (hnn : InputsSat (· ≠ .nan) m) :
+    Validate.machine m = true → WF m := by
+  rw [machine_eq_with, C12_today_is_cur]; exact C12_sound_cur_partial m hnn
 
 end Mb.C12
